@@ -42,6 +42,11 @@ static const char* const refrep_names[] = {"none", "rectangular2x3", "regular_al
 static const char* const props_names[] = {"none", "1:a", "2:ab", "1:a+2:ab"};
 static const char* const end_names[] = {"flush", "half_width", "extended", "round"};
 static const char* const rot_names[] = {"0", "pi/2", "pi", "0.3"};
+// transformations applied to a path after construction and before saving (scale_width is set first)
+static const char* const xf_names[] = {"none", "scale(3,(0.0054,0.0023)) scale_width=false", "scale(0.5,(0.0054,0.0023)) scale_width=true", "mirror((0,0),(1,0)) scale_width=true",
+                                       "mirror((1,0),(3,1)) scale_width=false", "rotate(0.6,(0,0)) scale_width=true", "transform(2,x_reflection,0.3,(1,-2)) scale_width=true",
+                                       "transform(2,x_reflection,0.3,(1,-2)) scale_width=false"};
+static const bool xf_scale_width[] = {true, false, true, true, false, true, true, false};
 static const int anchors[] = {0, 1, 2, 4, 5, 6, 8, 9, 10};
 static const double lib_units[][2] = {{1e-6, 1e-9}, {1e-6, 5e-10}, {1e-3, 1e-6}, {1, 1e-3}};
 static const double lib_nominal_scaling[] = {1000, 2000, 1000, 1000};
@@ -61,6 +66,8 @@ struct Elem {
     int target = 0;    // reference: 0 cell of the library by pointer, 1 absent cell by name
     int coord = PLAIN;
     int tag = 0;       // 0: (0,0); 1: (32767,32767)
+    int xf = 0;        // paths: index into xf_names, the transformation applied to the path object before it is saved
+    int off = 0;       // simple paths: 1 = the single element has a non-zero offset from the spine
 };
 struct LibSpec {
     int libcfg = 0;   // index into lib_units
@@ -87,6 +94,8 @@ inline std::string describe(const Elem& e) {
     if (e.kind == LABEL) { f.push_back({"anchor", jint(anchors[e.anchor])}); f.push_back({"text", jstr(e.textpar ? "AB" : "A")}); }
     if (e.kind == LABEL || e.kind == REFERENCE) { f.push_back({"rotation", jstr(rot_names[e.rot])}); f.push_back({"magnification", jnum(mag_value(e))}); f.push_back({"x_reflection", jbool(e.refl)}); }
     if (e.kind == REFERENCE) f.push_back({"target", jstr(e.target ? "absent cell by name" : "cell of the library by pointer")});
+    if (e.kind >= FLEX_SIMPLE && e.kind <= ROBUST_OUTLINE && e.xf) f.push_back({"transformed_by", jstr(xf_names[e.xf])});
+    if ((e.kind == FLEX_SIMPLE || e.kind == ROBUST_SIMPLE) && e.off) f.push_back({"element_offset", jstr("non-zero")});
     f.push_back({"coordinates", jstr(coord_names[e.coord])});
     if (e.kind != REFERENCE) f.push_back({"tag", jstr(e.tag ? "32767/32767" : "0/0")});
     return jobj(f);
@@ -226,6 +235,20 @@ static const int spine2[][2] = {{0, 0}, {30, 40}};
 static const int spine3[][2] = {{0, 0}, {40, 0}, {40, 30}};
 
 // ------------------------------------------------------------------ element builders
+template <class Path>
+inline void apply_xf(Path* p, int xf) {
+    if (!xf) return;
+    p->scale_width = xf_scale_width[xf];
+    switch (xf) {
+        case 1: p->scale(3, Vec2{0.0054, 0.0023}); break;
+        case 2: p->scale(0.5, Vec2{0.0054, 0.0023}); break;
+        case 3: p->mirror(Vec2{0, 0}, Vec2{1, 0}); break;
+        case 4: p->mirror(Vec2{1, 0}, Vec2{3, 1}); break;
+        case 5: p->rotate(0.6, Vec2{0, 0}); break;
+        case 6:
+        case 7: p->transform(2, true, 0.3, Vec2{1, -2}); break;
+    }
+}
 inline void add_element(Cell* cell, Cell* kid, const Elem& e, const LibSpec& s) {
     Frame f{e.coord == EXTSPAN && e.kind != POLYGON ? EXTMIN : e.coord, lib_nominal_scaling[s.libcfg]};
     Repetition rep = {};
@@ -256,7 +279,9 @@ inline void add_element(Cell* cell, Cell* kid, const Elem& e, const LibSpec& s) 
             const int(*sp)[2] = e.n == 2 ? spine2 : spine3;
             const double tol = 1e-5;
             if (e.kind == FLEX_SIMPLE) {
-                fp->init(f.pt(sp[0][0], sp[0][1]), 1, f.coord == HALF ? f.len(2) : f.len(8), 0, tol, tag_of(e));
+                double w1 = f.coord == HALF ? f.len(2) : f.len(8), o1 = e.off ? (f.coord == HALF ? f.len(12) : 0.0103) : 0;  // 10.3 millis: derived centre-line coordinates stay away from half grid steps
+                Tag t1 = tag_of(e);
+                fp->init(f.pt(sp[0][0], sp[0][1]), 1, &w1, &o1, tol, &t1);
                 fp->simple_path = true;
                 fp->scale_width = e.sw != 0;
                 fp->elements[0].end_type = e.end == 0 ? EndType::Flush : e.end == 1 ? EndType::HalfWidth : e.end == 2 ? EndType::Extended : EndType::Round;
@@ -270,6 +295,7 @@ inline void add_element(Cell* cell, Cell* kid, const Elem& e, const LibSpec& s) 
                 fp->scale_width = true;
             }
             for (int i = 1; i < e.n; i++) fp->segment(f.pt(sp[i][0], sp[i][1]), NULL, NULL, false);
+            apply_xf(fp, e.xf);
             fp->repetition = rep;
             set_props(fp->properties, e.props);
             cell->flexpath_array.append(fp);
@@ -280,7 +306,9 @@ inline void add_element(Cell* cell, Cell* kid, const Elem& e, const LibSpec& s) 
             const int(*sp)[2] = e.n == 2 ? spine2 : spine3;
             const double tol = 1e-5;
             if (e.kind == ROBUST_SIMPLE) {
-                rp->init(f.pt(sp[0][0], sp[0][1]), 1, f.coord == HALF ? f.len(2) : f.len(8), 0, tol, 1000, tag_of(e));
+                double w1 = f.coord == HALF ? f.len(2) : f.len(8), o1 = e.off ? (f.coord == HALF ? f.len(12) : 0.0103) : 0;  // 10.3 millis: derived centre-line coordinates stay away from half grid steps
+                Tag t1 = tag_of(e);
+                rp->init(f.pt(sp[0][0], sp[0][1]), 1, &w1, &o1, tol, 1000, &t1);
                 rp->simple_path = true;
                 rp->scale_width = e.sw != 0;
                 rp->elements[0].end_type = e.end == 0 ? EndType::Flush : e.end == 1 ? EndType::HalfWidth : e.end == 2 ? EndType::Extended : EndType::Round;
@@ -294,6 +322,7 @@ inline void add_element(Cell* cell, Cell* kid, const Elem& e, const LibSpec& s) 
                 rp->scale_width = true;
             }
             for (int i = 1; i < e.n; i++) rp->segment(f.pt(sp[i][0], sp[i][1]), NULL, NULL, false);
+            apply_xf(rp, e.xf);
             rp->repetition = rep;
             set_props(rp->properties, e.props);
             cell->robustpath_array.append(rp);
@@ -375,6 +404,11 @@ inline const std::vector<Family>& families() {
         {"label", LABEL, {"tag", "namepar", "libcfg", "coord", "props", "textpar", "refl", "mag", "rot", "anchor"}, {2, 2, 4, 3, 2, 2, 2, 2, 3, 9}},
         {"label.repeated", LABEL, {"tag", "namepar", "libcfg", "coord", "props", "rep"}, {2, 2, 4, 3, 2, 4}},
         {"reference", REFERENCE, {"namepar", "libcfg", "coord", "props", "target", "rep", "mag", "refl", "rot"}, {2, 4, 3, 2, 2, 5, 2, 2, 4}},
+        // paths that were transformed after construction (the scale members of the object diverge)
+        {"flexpath.simple.transformed", FLEX_SIMPLE, {"libcfg", "end2", "off", "n", "xf"}, {4, 2, 2, 2, 7}},
+        {"robustpath.simple.transformed", ROBUST_SIMPLE, {"libcfg", "end2", "off", "n", "xf"}, {4, 2, 2, 2, 7}},
+        {"flexpath.outline.transformed", FLEX_OUTLINE, {"libcfg", "n", "xf"}, {4, 2, 7}},
+        {"robustpath.outline.transformed", ROBUST_OUTLINE, {"libcfg", "n", "xf"}, {4, 2, 7}},
     };
     return F;
 }
@@ -413,6 +447,9 @@ inline LibSpec decode(const Family& fam, int64_t idx, bool heavy) {
         else if (d == "rot") e.rot = fam.kind == LABEL ? (x == 2 ? 3 : x) : x;
         else if (d == "anchor") e.anchor = x;
         else if (d == "target") e.target = x;
+        else if (d == "xf") { e.xf = x + 1; e.sw = xf_scale_width[e.xf]; }
+        else if (d == "off") e.off = x;
+        else if (d == "end2") e.end = x ? 2 : 0;  // flush, extended
     }
     if (repeated_label) e.anchor = 4;
     s.elems.push_back(e);
@@ -442,6 +479,8 @@ inline const std::vector<Elem>& reduced() {
     e = mk(ROBUST_SIMPLE, 3, 0, 0); R.push_back(e);
     e = mk(ROBUST_SIMPLE, 2, 0, 1); e.end = 2; e.sw = 0; R.push_back(e);
     R.push_back(mk(ROBUST_OUTLINE, 3, 0, 0));
+    e = mk(ROBUST_SIMPLE, 3, 0, 0); e.xf = 1; e.sw = 0; e.off = 1; R.push_back(e);  // scaled by 3 with absolute width, offset element
+    e = mk(FLEX_SIMPLE, 3, 0, 0); e.xf = 6; e.off = 1; e.end = 2; R.push_back(e);   // magnified, reflected, rotated, offset element
     e = mk(LABEL, 0, 0, 0); R.push_back(e);                                                                        // NW, plain
     e = mk(LABEL, 0, 0, 1); e.anchor = 8; e.rot = 1; e.mag = 1; e.refl = 1; e.textpar = 1; R.push_back(e);         // SE, pi/2, 2.5, reflected
     e = mk(LABEL, 0, 0, 0); e.anchor = 4; e.rot = 3; R.push_back(e);                                               // O, 0.3
